@@ -3,6 +3,14 @@ import Heph.Spec.Diag
 crash searches. -/
 namespace Heph.Diag
 
+/-- `chars! "ab"` is the list literal `['a', 'b']` (the same value as `"ab".toList`, but the
+kernel does not have to decode the string: `decide` on `String.toList` is ~20 times slower) -/
+scoped macro "chars! " s:str : term => do
+  let cs := s.getString.toList.toArray.map fun c => Lean.Syntax.mkCharLit c
+  `([$cs,*])
+
+example : chars! "a/b c" = "a/b c".toList := by decide
+
 /-! ## list helpers -/
 
 theorem takeWhile_append_all (p : Char → Bool) (a b : List Char) (ha : ∀ c ∈ a, p c = true) :
@@ -291,6 +299,18 @@ theorem isPrefixOf_local (pat : List Char) (hp : '\n' ∉ pat) (t rest : List Ch
     | cons c cs =>
       simp only [List.cons_append, List.isPrefixOf]
       rw [ih (fun h => hp (by simp [h]))]
+
+theorem isPrefixOf_snoc_nl (p : List Char) (hnl : '\n' ∉ p) (t : List Char) :
+    p.isPrefixOf (t ++ ['\n']) = p.isPrefixOf t := by
+  induction p generalizing t with
+  | nil => simp [List.isPrefixOf]
+  | cons x xs ih =>
+    have hx : x ≠ '\n' := fun h => hnl (by simp [h])
+    have hxs : '\n' ∉ xs := fun h => hnl (by simp [h])
+    cases t with
+    | nil => simp [List.isPrefixOf, hx]
+    | cons y ys =>
+      simp only [List.cons_append, List.isPrefixOf, ih hxs ys]
 
 theorem searchThenNl_line (pat : List Char) (hp : '\n' ∉ pat) (l rest : List Char) :
     searchThenNl pat (l ++ '\n' :: rest)
